@@ -159,6 +159,54 @@ def r3_per_config(rep, tier):
     rep.cur_config = None
 
 
+def r3d_same_resolution(rep):
+    """the same source function must mean the same thing in every configuration: method calls resolve to the same callee"""
+    R = rep.rule('C18/R3d', 'a function compiled in two configurations calls the same things in both: for every function body present in the default configuration and in another '
+                 'one, the resolved callee of every method call is the same, except inside the documented switch points (toml::map, InternalString, the stand-in error types of '
+                 'toml without toml_edit\'s parser / printer, the reviewed body forks).  A call that resolves through a cfg-gated impl in one build and through an auto-deref '
+                 'fallback in another (`key.to_string()`: Display for Key with `display`, str otherwise) gives different values from the same source', floor=10)
+    import collections
+    base = Facts('default')
+
+    def sig(b):
+        out = collections.Counter()
+        for n in walk(b['body']):
+            if n.get('k') == 'mcall':
+                c = (n.get('resolved') or n.get('callee') or '?').replace('toml::edit::', 'toml_edit::')
+                # the receiver as the call sees it (its type after auto-deref / auto-ref): `x.to_string()` on a Key is one thing, on the str it derefs to another
+                r = n.get('recv') or {}
+                out[(n.get('name'), c, (r.get('adj') or ''), (r.get('t') or '').replace('toml::edit::', 'toml_edit::'))] += 1
+        return out
+    allowed_files = set().union(*CONFINED.values()) | {f for (f, _, _) in BODY_FORKS}
+    n_cmp = 0
+    for cfg in CONFIGS:
+        name = cfg if isinstance(cfg, str) else cfg[0]
+        if name == 'default':
+            continue
+        try:
+            f = Facts(name)
+        except AnalysisIncomplete:
+            continue
+        diffs = []
+        n_same = 0
+        for d, b in f.bodies.items():
+            bb = base.bodies.get(d)
+            if bb is None or b.get('derived') or '::test' in d:
+                continue
+            s1, s2 = sig(bb), sig(b)
+            if s1 == s2:
+                n_same += 1
+                continue
+            if f.rel(b.get('file')) in allowed_files:
+                continue
+            diffs.append((d, sorted(s1 - s2)[:2], sorted(s2 - s1)[:2], f.loc(b)))
+        n_cmp += 1
+        rep.check(R, f'{name}|same-callees', not diffs, f'{n_same} functions shared with the default configuration resolve their calls identically',
+                  (f'in configuration `{name}` `{diffs[0][0]}` calls {diffs[0][2]} where the default build calls {diffs[0][1]}' +
+                   (f' (+{len(diffs) - 1} more functions)' if len(diffs) > 1 else '')) if diffs else '', diffs[0][3] if diffs else '')
+    rep.check(R, 'configurations', n_cmp >= 10, f'{n_cmp} configurations compared with the default one', f'only {n_cmp} configurations could be compared')
+
+
 def r5b_single_entry_enum(rep):
     """an externally tagged enum is read from a table of exactly one entry: with more entries `the first one` is whichever the map's order puts first"""
     R = rep.rule('C18/R5b', 'a table is accepted as an enum only when it has exactly one entry (evaluated: 0, 2 and 3 entries are refused before the variant access is built, '
@@ -274,6 +322,7 @@ def run(tier):
         r4_unbounded(rep)
         r5_order_sensitive(rep)
         r5b_single_entry_enum(rep)
+        r3d_same_resolution(rep)
     except AnalysisIncomplete as e:
         rep.incomplete('C18/analysis', 'rules', str(e))
     except Exception:
